@@ -84,10 +84,11 @@ const char * op_name(int k)
 // Extended operations (added after the first 14; selected by words decoded AFTER everything else so that older
 // tapes keep their meaning). `var` differs between threads: threads hit the same code with DIFFERENT arguments,
 // sizes and template instantiations, which is what an argument-keyed cache or a shared scratch buffer needs to fail.
-constexpr int NEXT = 5;
+constexpr int NEXT = 6;
 const char * ext_name(int k)
 {
-  static const char * n[NEXT] = {"dubins + reparameterize", "Spline arclength/concat/crop", "polynomial tables + quadrature", "sparse second-order + Bundle (private outputs)", "AnyManifold/SubManifold varied sizes"};
+  static const char * n[NEXT] = {"dubins + reparameterize", "Spline arclength/concat/crop", "polynomial tables + quadrature", "sparse second-order + Bundle (private outputs)", "AnyManifold/SubManifold varied sizes",
+                                 "diff::dr / minimize with dynamic-size arguments"};
   return n[k];
 }
 
@@ -160,6 +161,27 @@ Out run_ext(int k, int var, const Shared & s)
     Eigen::SparseMatrix<double> J3 = d_exp_sparse_pattern<SO3d>;
     dr_exp_sparse<SO3d>(J3, s.a.tail<3>() * (1.0 + var));
     push(o, Eigen::MatrixXd(J3));
+    break;
+  }
+  case 5: {
+    // dynamic-size arguments (Dof == -1) of different sizes per thread, K = 1 and 2, index subset, minimize
+    const int n = 3 + 2 * var;
+    Eigen::VectorXd x = Eigen::VectorXd::LinSpaced(n, -1.0, 1.5 + var);
+    const Eigen::VectorXd y = Eigen::VectorXd::LinSpaced(2 + var, 0.3, 0.9);
+    const auto f = [&s](const Eigen::VectorXd & xx, const Eigen::VectorXd & yy) -> Eigen::VectorXd {
+      Eigen::VectorXd r = (0.5 * xx).array().sin().matrix() + 0.1 * xx * yy.sum() + 0.01 * s.a(0) * xx.cwiseProduct(xx);
+      return r;
+    };
+    const auto [v1, J1] = diff::dr<1, diff::Type::Numerical>(f, smooth::wrt(x, y));
+    push(o, v1);
+    push(o, J1);
+    const auto [v2, J2, H2] = diff::dr<2, diff::Type::Numerical>(f, smooth::wrt(x, y), std::index_sequence<1>{});
+    push(o, J2);
+    push(o, H2);
+    const auto g = [&s, n](const Eigen::VectorXd & xx) -> Eigen::VectorXd { return xx - Eigen::VectorXd::LinSpaced(n, 0.0, 1.0) * (1.0 + 0.1 * s.a(1)); };
+    const auto res = minimize<diff::Type::Numerical>(g, smooth::wrt(x));
+    push(o, x);
+    o.push_back(static_cast<double>(res.iter));
     break;
   }
   default: {
